@@ -14,7 +14,7 @@
 From Verif.Base Require Import Bytes Utf8.
 From Verif.Semver Require Import Model.
 From Verif.Module Require Import Path Match PathSpec PathProofs PathProofsSplit PathProofsSpec
-  PathProofsSpec2 PathProofsDev PathProofsCheck PathProofsMatch PathProofsFuel.
+  PathProofsSpec2 PathProofsDev PathProofsCheck PathProofsMatch PathProofsFuel PathProofsFold.
 
 (* ---- 1. every valid module path is a valid import path, every valid import path a valid
         file path (re-proved against the regenerated character classes) ------------------ *)
@@ -129,6 +129,15 @@ Print Assumptions C06_first_leading_dash_unreachable.
 Theorem C06_fold_min_class : forall r, fold_min r = fold_class r.
 Proof. exact fold_min_class. Qed.
 Print Assumptions C06_fold_min_class.
+
+(* "regardless of case (CON, com1, NuL, and so on)": the reserved-name test of checkElem is
+   plain ASCII case-insensitivity; no non-ASCII rune (KELVIN SIGN, LONG S, ...) folds into a
+   reserved name, in file paths either *)
+Theorem C06_reserved_name_ascii :
+  forall s, is_bad_windows_name s = true <->
+            In (map ascii_upper s) reserved_names /\ Forall (fun x => 0 <= x < 128) s.
+Proof. exact is_bad_windows_name_ascii. Qed.
+Print Assumptions C06_reserved_name_ascii.
 
 (* ---- 4. Check = valid module path /\ valid version /\ the documented major-version rule ------- *)
 
